@@ -157,3 +157,436 @@ Proof.
   - rewrite (existsb_ext_c _ _ _ (fun s => m_here_lits _ l s L)).
     rewrite contains_lower. reflexivity.
 Qed.
+
+(* ------------------------------------------------------------------ *)
+(* the generated table, classified *)
+Definition classify_text (meth : re_method) (ic : bool) (p : text) : option meaning :=
+  match parse_re p with Some r => classify meth ic r | None => None end.
+
+Definition somes {A} (l : list (option A)) : list A :=
+  flat_map (fun o => match o with Some x => [x] | None => [] end) l.
+Definition all_some {A} (l : list (option A)) : bool :=
+  forallb (fun o => match o with Some _ => true | None => false end) l.
+
+Lemma sens_with_meanings meth ic pats :
+  all_some (map (classify_text meth ic) pats) = true ->
+  forall k, sensitive_with meth ic pats k = existsb (eval_meaning k) (somes (map (classify_text meth ic) pats)).
+Proof.
+  intros H k. induction pats as [|p pats IH]; [reflexivity|].
+  cbn [map all_some forallb] in H. apply andb_true_iff in H as [Hp H].
+  destruct (classify_text meth ic p) as [m|] eqn:Cp; [|discriminate].
+  change (sensitive_with meth ic (p :: pats) k) with (pattern_hits meth ic k p || sensitive_with meth ic pats k).
+  rewrite (IH H).
+  change (somes (map (classify_text meth ic) (p :: pats)))
+    with ((match classify_text meth ic p with Some x => [x] | None => [] end) ++ somes (map (classify_text meth ic) pats)).
+  rewrite Cp. cbn [app existsb]. f_equal.
+  unfold classify_text in Cp. unfold pattern_hits. destruct (parse_re p); [|discriminate]. now apply classify_sound.
+Qed.
+
+Lemma teqb_eq a : forall b, teqb a b = true -> a = b.
+Proof.
+  induction a as [|x a IH]; intros [|y b] H; try discriminate; [reflexivity|].
+  cbn in H. apply andb_true_iff in H as [H1 H2]. apply N.eqb_eq in H1. subst. f_equal. now apply IH.
+Qed.
+
+Lemma teqb_refl a : teqb a a = true.
+Proof. induction a as [|x a IH]; cbn; [reflexivity | now rewrite N.eqb_refl, IH]. Qed.
+
+Definition meaning_eqb (a b : meaning) : bool :=
+  match a, b with
+  | MEnds x, MEnds y => teqb x y
+  | MContains x, MContains y => teqb x y
+  | _, _ => false
+  end.
+
+Lemma meaning_eqb_eq a b : meaning_eqb a b = true -> a = b.
+Proof. destruct a, b; cbn; intros H; try discriminate; f_equal; now apply teqb_eq. Qed.
+
+Definition incl_b (a b : list meaning) : bool := forallb (fun m => existsb (meaning_eqb m) b) a.
+
+Lemma incl_b_existsb f a b : incl_b a b = true -> existsb f a = true -> existsb f b = true.
+Proof.
+  unfold incl_b. rewrite forallb_forall, !existsb_exists. intros H [m [Hin Hf]].
+  specialize (H m Hin). apply existsb_exists in H as [m' [Hin' E]]. apply meaning_eqb_eq in E. subst m'.
+  now exists m.
+Qed.
+
+Definition code_meanings : list (option meaning) :=
+  map (classify_text C20_method C20_ignorecase) C20_patterns.
+Definition spec_meanings : list meaning := map MEnds spec_suffixes ++ map MContains spec_infixes.
+
+(* The three facts below are recomputed against the regenerated table on every build. *)
+Lemma table_classified : all_some code_meanings = true.
+Proof. vm_compute. reflexivity. Qed.
+Lemma table_covers_spec : incl_b spec_meanings (somes code_meanings) = true.
+Proof. vm_compute. reflexivity. Qed.
+Lemma table_within_spec : incl_b (somes code_meanings) spec_meanings = true.
+Proof. vm_compute. reflexivity. Qed.
+
+Definition spec_before_newline (k : text) : bool :=
+  existsb (fun s => ends_with (s ++ [10]) (lower k)) spec_suffixes.
+
+Lemma orb_swap_c a b c : a || b || c = a || c || b.
+Proof. destruct a, b, c; reflexivity. Qed.
+
+Lemma spec_meanings_eval k :
+  existsb (eval_meaning k) spec_meanings = sensitive_spec k || spec_before_newline k.
+Proof.
+  unfold spec_meanings, sensitive_spec, spec_before_newline.
+  rewrite existsb_app, !existsb_map_c. cbn [eval_meaning]. rewrite existsb_orb_c.
+  apply orb_swap_c.
+Qed.
+
+Lemma key_characterised k : sensitive_code k = sensitive_spec k || spec_before_newline k.
+Proof.
+  unfold sensitive_code. rewrite (sens_with_meanings _ _ _ table_classified).
+  rewrite <- spec_meanings_eval. apply bool_eq_iff. split; apply incl_b_existsb.
+  - exact table_within_spec.
+  - exact table_covers_spec.
+Qed.
+
+Lemma spec_implies_code k : sensitive_spec k = true -> sensitive_code k = true.
+Proof. intros H. now rewrite key_characterised, H. Qed.
+
+Lemma suffix_of_app (a b : text) : In b (suffixes (a ++ b)).
+Proof.
+  induction a as [|x a IH]; [apply suffixes_self|]. cbn [app]. rewrite suffixes_cons. now right.
+Qed.
+
+Lemma ends_with_app a b x : ends_with (a ++ b) x = true -> ends_with b x = true.
+Proof.
+  unfold ends_with. rewrite !existsb_exists. intros [s [Hin E]]. apply teqb_eq in E. subst s.
+  exists b. split; [|apply teqb_refl]. eapply suffixes_trans; [exact Hin | apply suffix_of_app].
+Qed.
+
+Lemma ends_with_nl_lower k : ends_with [10] (lower k) = ends_with [10] k.
+Proof.
+  rewrite ends_with_lower. unfold ends_with. apply existsb_ext_c. intros s.
+  destruct s as [|x [|y s]]; cbn; try reflexivity; now rewrite lower_c_10.
+Qed.
+
+Lemma code_iff_spec k : ends_with [10] k = false -> sensitive_code k = sensitive_spec k.
+Proof.
+  intros H. rewrite key_characterised.
+  assert (E : spec_before_newline k = false); [|now rewrite E, orb_false_r].
+  destruct (spec_before_newline k) eqn:X; [|reflexivity]. unfold spec_before_newline in X.
+  apply existsb_exists in X as [s [_ X]]. apply ends_with_app in X. rewrite ends_with_nl_lower in X. congruence.
+Qed.
+
+Definition lookalike_keys : list text :=
+  map T ["passwor"; "passwords"; "password_hint"; "pass_word"; "pwd1"; "pwds"; "p_wd"; "secret"; "secrets";
+         "_secrets"; "topsecret"; "key"; "keys"; "monkey"; "keyboard"; "_keys"; "_key_id"; "token"; "tokens";
+         "_tokens"; "_tokenized"; "credential"; "credentialz"; "cred"; "user"; "name"; "message"; ""]%string.
+
+Lemma lookalikes_clear : forallb (fun k => negb (sensitive_code k)) lookalike_keys = true.
+Proof. vm_compute. reflexivity. Qed.
+
+(* ------------------------------------------------------------------ *)
+(* clean over trees *)
+Section CleanProofs.
+Variable sens : text -> bool.
+Variable str_of : json -> text.
+Variable digest : text -> text.
+Variable colq : text -> text.
+
+Notation cv := (clean_val sens str_of digest colq).
+Notation cm := (clean_member sens str_of digest colq).
+
+Lemma clean_val_obj kvs : cv (JObj kvs) = CObj (map cm kvs).
+Proof.
+  cbn [clean_val]. f_equal. induction kvs as [|[k v] kvs IH]; [reflexivity|].
+  cbn [map]. rewrite <- IH. reflexivity.
+Qed.
+
+Definition clear_path (p : list nat) (j : json) : bool := forallb (fun k => negb (sens k)) (jkeys p j).
+
+(* along a path of non-sensitive keys the cleaned tree holds clean(subtree) *)
+Lemma clean_commutes p : forall j v, clear_path p j = true -> jget p j = Some v -> cget p (cv j) = Some (cv v).
+Proof.
+  induction p as [|i p IH]; intros j v Hc Hg.
+  - cbn in Hg. injection Hg as <-. reflexivity.
+  - destruct j as [| | | | |kvs]; try discriminate.
+    cbn [jget] in Hg. unfold clear_path in Hc. cbn [jkeys] in Hc.
+    destruct (nth_error kvs i) as [[k w]|] eqn:E; [|discriminate].
+    cbn [forallb] in Hc. apply andb_true_iff in Hc as [Hk Hc]. apply negb_true_iff in Hk.
+    rewrite clean_val_obj. cbn [cget]. rewrite nth_error_map, E. cbn [option_map].
+    unfold clean_member at 1. cbn [fst snd]. rewrite Hk. now apply IH.
+Qed.
+
+Lemma clean_redacts p i : forall j kvs k v,
+  clear_path p j = true -> jget p j = Some (JObj kvs) -> nth_error kvs i = Some (k, v) -> sens k = true ->
+  cget (p ++ [i]) (cv j) = Some (CRedacted (digest (str_of v))) /\
+  forall q, q <> [] -> cget ((p ++ [i]) ++ q) (cv j) = None.
+Proof.
+  intros j kvs k v Hc Hg Hn Hs.
+  assert (A : forall q, cget ((p ++ [i]) ++ q) (cv j) = cget q (CRedacted (digest (str_of v)))).
+  { intros q. revert j Hc Hg. induction p as [|a p IH]; intros j Hc Hg.
+    - cbn in Hg. injection Hg as ->. rewrite clean_val_obj. cbn [app cget].
+      rewrite nth_error_map, Hn. cbn [option_map]. unfold clean_member. cbn [fst snd]. now rewrite Hs.
+    - destruct j as [| | | | |kvs0]; try discriminate.
+      cbn [jget] in Hg. unfold clear_path in Hc. cbn [jkeys] in Hc.
+      destruct (nth_error kvs0 a) as [[k0 w]|] eqn:E; [|discriminate].
+      cbn [forallb] in Hc. apply andb_true_iff in Hc as [Hk Hc]. apply negb_true_iff in Hk.
+      rewrite clean_val_obj. cbn [app cget]. rewrite nth_error_map, E. cbn [option_map].
+      unfold clean_member at 1. cbn [fst snd]. rewrite Hk. now apply IH. }
+  split.
+  - rewrite <- (app_nil_r (p ++ [i])). now rewrite A.
+  - intros q Hq. rewrite A. destruct q; [congruence | reflexivity].
+Qed.
+
+Lemma clean_keeps_keys kvs : map fst (map cm kvs) = map fst kvs.
+Proof. rewrite map_map. apply map_ext. intros [k v]. reflexivity. Qed.
+
+(* two secrets with the same digest give the same cleaned tree *)
+Lemma ni_base v1 v2 k : digest (str_of v1) = digest (str_of v2) -> sens k = true ->
+  forall kvs i v0, nth_error kvs i = Some (k, v0) ->
+  map cm (replace_nth i (fun kv => (fst kv, v1)) kvs) = map cm (replace_nth i (fun kv => (fst kv, v2)) kvs).
+Proof.
+  intros Hd Hs kvs. induction kvs as [|kv kvs IH]; intros i v0 Hn; [destruct i; reflexivity|].
+  destruct i as [|i]; cbn [replace_nth map].
+  - cbn in Hn. injection Hn as ->. f_equal. unfold clean_member. cbn [fst snd]. now rewrite Hs, Hd.
+  - f_equal. now apply IH with (v0 := v0).
+Qed.
+
+Lemma ni_step (f1 f2 : json -> json) k : sens k = false ->
+  forall kvs a w, nth_error kvs a = Some (k, w) -> cv (f1 w) = cv (f2 w) ->
+  map cm (replace_nth a (fun kv => (fst kv, f1 (snd kv))) kvs) = map cm (replace_nth a (fun kv => (fst kv, f2 (snd kv))) kvs).
+Proof.
+  intros Hk kvs. induction kvs as [|kv kvs IH]; intros a w Hn He; [destruct a; reflexivity|].
+  destruct a as [|a]; cbn [replace_nth map].
+  - cbn in Hn. injection Hn as ->. f_equal. unfold clean_member. cbn [fst snd]. now rewrite Hk, He.
+  - f_equal. now apply IH with (w := w).
+Qed.
+
+Lemma clean_noninterference p i : forall j kvs k v0 v1 v2,
+  clear_path p j = true -> jget p j = Some (JObj kvs) -> nth_error kvs i = Some (k, v0) -> sens k = true ->
+  digest (str_of v1) = digest (str_of v2) ->
+  cv (jset (p ++ [i]) v1 j) = cv (jset (p ++ [i]) v2 j).
+Proof.
+  induction p as [|a p IH]; intros j kvs k v0 v1 v2 Hc Hg Hn Hs Hd.
+  - cbn in Hg. injection Hg as ->. cbn [app jset]. rewrite !clean_val_obj. f_equal.
+    now apply ni_base with (k := k) (v0 := v0).
+  - destruct j as [| | | | |kvs0]; try discriminate.
+    cbn [jget] in Hg. unfold clear_path in Hc. cbn [jkeys] in Hc.
+    destruct (nth_error kvs0 a) as [[k0 w]|] eqn:E; [|discriminate].
+    cbn [forallb] in Hc. apply andb_true_iff in Hc as [Hk Hc]. apply negb_true_iff in Hk.
+    cbn [app jset]. rewrite !clean_val_obj. f_equal.
+    apply ni_step with (f1 := jset (p ++ [i]) v1) (f2 := jset (p ++ [i]) v2) (k := k0) (w := w); try assumption.
+    now apply IH with (kvs := kvs) (k := k) (v0 := v0).
+Qed.
+End CleanProofs.
+
+(* ------------------------------------------------------------------ *)
+(* URL user-info step *)
+Lemma url_from_skip a : forall b, url_from (a ++ b) (List.length a) = url_from b 0.
+Proof. induction a as [|c a IH]; intros b; [reflexivity|]. cbn [app List.length url_from]. apply IH. Qed.
+
+Lemma find_close_app q u post : existsb (fun c => (c =? q) || (c =? 10)) u = false ->
+  find_close q false (u ++ q :: post) = Some (List.length u).
+Proof.
+  induction u as [|c u IH]; intros H.
+  - cbn. now rewrite N.eqb_refl.
+  - cbn [existsb] in H. apply orb_false_iff in H as [H1 H2]. apply orb_false_iff in H1 as [Hq Hn].
+    cbn [app find_close List.length]. rewrite Hq, Hn. cbn [negb andb]. now rewrite (IH H2).
+Qed.
+
+Lemma is_prefix_sep_inside c s rest : is_prefix [58; 47; 47] (c :: s) = false ->
+  is_prefix [58; 47; 47] ((c :: s) ++ 58 :: 47 :: 47 :: rest) = false.
+Proof.
+  destruct s as [|b [|d s]]; intros H; cbn [app is_prefix] in *.
+  - change (47 =? 58) with false. now rewrite andb_false_r.
+  - change (47 =? 58) with false. now rewrite !andb_false_r.
+  - exact H.
+Qed.
+
+Lemma url_from_unfold c r :
+  url_from (c :: r) 0 =
+  if is_prefix [58; 47; 47] (c :: r) then
+    match find_close 64 false (skipn 2 r) with
+    | Some n => C20_url_replacement ++ url_from r (3 + n)
+    | None => c :: url_from r 0
+    end
+  else c :: url_from r 0.
+Proof. reflexivity. Qed.
+
+Lemma url_pre pre rest : contains [58; 47; 47] pre = false ->
+  url_from (pre ++ 58 :: 47 :: 47 :: rest) 0 = pre ++ url_from (58 :: 47 :: 47 :: rest) 0.
+Proof.
+  induction pre as [|c pre IH]; intros H; [reflexivity|].
+  unfold contains in H. rewrite suffixes_cons in H. cbn [existsb] in H.
+  apply orb_false_iff in H as [H1 H2].
+  change ((c :: pre) ++ 58 :: 47 :: 47 :: rest) with (c :: (pre ++ 58 :: 47 :: 47 :: rest)).
+  rewrite url_from_unfold.
+  change (c :: pre ++ 58 :: 47 :: 47 :: rest) with ((c :: pre) ++ 58 :: 47 :: 47 :: rest).
+  rewrite (is_prefix_sep_inside c pre rest H1). cbn [app]. f_equal. now apply IH.
+Qed.
+
+Lemma url_hides pre u post :
+  contains [58; 47; 47] pre = false ->
+  existsb (fun c => (c =? 64) || (c =? 10)) u = false ->
+  url_step (pre ++ [58; 47; 47] ++ u ++ [64] ++ post) = pre ++ C20_url_replacement ++ url_step post.
+Proof.
+  intros Hp Hu. unfold url_step. cbn [app]. rewrite (url_pre _ _ Hp). f_equal.
+  rewrite url_from_unfold. change (is_prefix [58; 47; 47] (58 :: 47 :: 47 :: u ++ 64 :: post)) with true.
+  cbn [skipn]. rewrite (find_close_app 64 u post Hu). f_equal.
+  change (47 :: 47 :: u ++ 64 :: post) with ((47 :: 47 :: u) ++ 64 :: post).
+  replace ((47 :: 47 :: u) ++ 64 :: post) with ((47 :: 47 :: u ++ [64]) ++ post)
+    by (cbn [app]; now rewrite <- app_assoc).
+  replace (3 + List.length u)%nat with (List.length (47 :: 47 :: u ++ [64]))
+    by (cbn [List.length]; rewrite app_length; cbn [List.length]; lia).
+  apply url_from_skip.
+Qed.
+
+(* ------------------------------------------------------------------ *)
+(* the '|' split and the search for a JSON tail *)
+Lemma split_nonempty sep s : split sep s <> [].
+Proof.
+  destruct s as [|c s]; cbn; [discriminate|].
+  destruct (c =? sep); [discriminate|]. destruct (split sep s); discriminate.
+Qed.
+
+Lemma split_app sep a b : split sep (a ++ sep :: b) = split sep a ++ split sep b.
+Proof.
+  induction a as [|c a IH].
+  - cbn [app split]. now rewrite N.eqb_refl.
+  - cbn [app split]. rewrite IH. destruct (c =? sep); [reflexivity|].
+    destruct (split sep a) as [|h t] eqn:E; [now apply split_nonempty in E|]. reflexivity.
+Qed.
+
+Lemma join_cons2 sep x y r : join sep (x :: y :: r) = x ++ sep ++ join sep (y :: r).
+Proof. reflexivity. Qed.
+
+Lemma join_split sep s : join [sep] (split sep s) = s.
+Proof.
+  induction s as [|c s IH]; [reflexivity|]. cbn [split].
+  destruct (split sep s) as [|h t] eqn:E; [now apply split_nonempty in E|].
+  destruct (N.eqb_spec c sep) as [->|_].
+  - rewrite join_cons2. cbn [app]. now rewrite IH.
+  - destruct t as [|x t].
+    + cbn [join] in *. now rewrite IH.
+    + rewrite join_cons2. rewrite join_cons2 in IH. cbn [app] in *. now rewrite IH.
+Qed.
+
+Lemma find_tail_finds parse o : forall front back i,
+  back <> [] -> parse (join [bar] back) = Some o ->
+  exists i' o', find_tail parse (front ++ back) i = Some (i', o').
+Proof.
+  induction front as [|x front IH]; intros back i Hb Hp.
+  - destruct back as [|y back]; [congruence|]. cbn [app find_tail]. rewrite Hp. eauto.
+  - cbn [app find_tail]. destruct (parse (join [bar] (x :: front ++ back))); [eauto|].
+    destruct (front ++ back) as [|y l] eqn:E.
+    + apply app_eq_nil in E as [_ E]. congruence.
+    + rewrite <- E. now apply IH.
+Qed.
+
+Lemma find_tail_sound parse : forall parts i i' o',
+  find_tail parse parts i = Some (i', o') ->
+  exists d, i' = (i + d)%nat /\ parse (join [bar] (skipn d parts)) = Some o'.
+Proof.
+  induction parts as [|x parts IH]; intros i i' o' H.
+  - cbn [find_tail] in H. destruct (parse (join [bar] [])) eqn:E; [|discriminate].
+    injection H as <- <-. exists O. split; [lia | exact E].
+  - cbn [find_tail] in H. destruct (parse (join [bar] (x :: parts))) eqn:E.
+    + injection H as <- <-. exists O. split; [lia | exact E].
+    + destruct parts as [|y l]; [discriminate|]. apply IH in H as [d [-> H]].
+      exists (S d). split; [lia | exact H].
+Qed.
+
+Lemma tail_found parse pre m o :
+  (pre = [] \/ exists pre', pre = pre' ++ [bar]) -> parse m = Some o ->
+  exists i o', find_tail parse (split bar (pre ++ m)) 0 = Some (i, o') /\
+               parse (join [bar] (skipn i (split bar (pre ++ m)))) = Some o'.
+Proof.
+  intros Hpre Hp.
+  assert (F : exists i o', find_tail parse (split bar (pre ++ m)) 0 = Some (i, o')).
+  { destruct Hpre as [->|[pre' ->]].
+    - apply (find_tail_finds parse o [] (split bar m) O); [apply split_nonempty | now rewrite join_split].
+    - rewrite <- app_assoc. cbn [app]. rewrite split_app.
+      apply (find_tail_finds parse o); [apply split_nonempty | now rewrite join_split]. }
+  destruct F as [i [o' F]]. exists i, o'. split; [exact F|].
+  apply find_tail_sound in F as [d [-> F]]. exact F.
+Qed.
+
+Lemma sanitize_clean_branch sens parse digest can record pre m o :
+  color_code can record = pre ++ m ->
+  (pre = [] \/ exists pre', pre = pre' ++ [bar]) -> parse m = Some o ->
+  exists i o',
+    parse (join [bar] (skipn i (split bar (color_code can record)))) = Some o' /\
+    sanitize_core sens parse digest can record =
+      join [bar] (firstn i (split bar (color_code can record)) ++
+                  [T " " ++ json_dumps_flat (render_obj colours_on
+                     (clean_obj sens py_str digest (colour_quotes colours_on) o'))]).
+Proof.
+  intros Hc Hpre Hp. destruct (tail_found parse pre m o Hpre Hp) as [i [o' [F S]]].
+  exists i, o'. rewrite Hc. split; [exact S|]. unfold sanitize_core. rewrite Hc, F. reflexivity.
+Qed.
+
+(* ------------------------------------------------------------------ *)
+(* the statements of Props/C20.v *)
+Definition plain_key (k : text) : bool := negb (sensitive_spec k) && negb (ends_with [10] k).
+
+Lemma plain_keys_clear l : forallb plain_key l = true -> forallb (fun k => negb (sensitive_code k)) l = true.
+Proof.
+  rewrite !forallb_forall. intros H k Hin. specialize (H k Hin). unfold plain_key in H.
+  apply andb_true_iff in H as [H1 H2]. apply negb_true_iff in H2. now rewrite (code_iff_spec k H2).
+Qed.
+
+Lemma clean_redacts_spec (str_of : json -> text) (digest colq : text -> text) j p i kvs k v :
+  forallb plain_key (jkeys p j) = true ->
+  jget p j = Some (JObj kvs) -> nth_error kvs i = Some (k, v) -> sensitive_spec k = true ->
+  cget (p ++ [i]) (clean_val sensitive_code str_of digest colq j) = Some (CRedacted (digest (str_of v))) /\
+  forall q, q <> [] -> cget ((p ++ [i]) ++ q) (clean_val sensitive_code str_of digest colq j) = None.
+Proof.
+  intros Hc Hg Hn Hs. apply clean_redacts with (kvs := kvs) (k := k); try assumption.
+  - apply plain_keys_clear, Hc.
+  - now apply spec_implies_code.
+Qed.
+
+Lemma clean_keeps_spec (str_of : json -> text) (digest colq : text -> text) j p v :
+  forallb plain_key (jkeys p j) = true -> jget p j = Some v ->
+  cget p (clean_val sensitive_code str_of digest colq j) =
+    Some (match v with
+          | JObj kvs => CObj (clean_obj sensitive_code str_of digest colq kvs)
+          | _ => CLeaf (colq (str_of v))
+          end) /\
+  forall kvs, map fst (clean_obj sensitive_code str_of digest colq kvs) = map fst kvs.
+Proof.
+  intros Hc Hg. split.
+  - rewrite (clean_commutes sensitive_code str_of digest colq p j v (plain_keys_clear _ Hc) Hg).
+    destruct v; try reflexivity. now rewrite clean_val_obj.
+  - intros kvs. apply clean_keeps_keys.
+Qed.
+
+Definition record_of (j : json) : obj := match j with JObj o => o | _ => [] end.
+
+Lemma clean_val_record sens str_of digest colq o :
+  clean_val sens str_of digest colq (JObj o) = CObj (clean_obj sens str_of digest colq o).
+Proof. apply clean_val_obj. Qed.
+
+Lemma jset_obj p v o : exists o', jset p v (JObj o) = JObj o' \/ p = [].
+Proof. destruct p; [exists []; now right | eexists; left; reflexivity]. Qed.
+
+Lemma output_depends_on_digest_only (digest : text -> text) colorize o p i kvs k v0 v1 v2 :
+  forallb plain_key (jkeys p (JObj o)) = true ->
+  jget p (JObj o) = Some (JObj kvs) -> nth_error kvs i = Some (k, v0) -> sensitive_spec k = true ->
+  digest (py_str v1) = digest (py_str v2) ->
+  clean_record_model digest colorize (record_of (jset (p ++ [i]) v1 (JObj o))) =
+  clean_record_model digest colorize (record_of (jset (p ++ [i]) v2 (JObj o))).
+Proof.
+  intros Hc Hg Hn Hs Hd.
+  pose proof (clean_noninterference sensitive_code py_str digest (colour_quotes (colours_of colorize))
+                p i (JObj o) kvs k v0 v1 v2 (plain_keys_clear _ Hc) Hg Hn (spec_implies_code k Hs) Hd) as NI.
+  destruct (p ++ [i]) as [|a q] eqn:E; [now destruct p|].
+  cbn [jset] in NI |- *. rewrite !clean_val_obj in NI. injection NI as NI.
+  unfold clean_record_model, clean_obj, record_of. now rewrite NI.
+Qed.
+
+Lemma array_members_not_cleaned :
+  exists (secret : text) (o : obj),
+    o = [(T "items", JArr [JObj [(T "password", JStr secret)]])] /\
+    sensitive_spec (T "password") = true /\
+    contains secret (json_dumps_flat (clean_record_model (fun _ => T "00000000") false o)) = true.
+Proof.
+  exists (T "hunter2"), [(T "items", JArr [JObj [(T "password", JStr (T "hunter2"))]])].
+  split; [reflexivity|]. split; vm_compute; reflexivity.
+Qed.
